@@ -228,6 +228,9 @@ def eval_case(case):
 # --------------------------------------------------------------------------- end to end
 
 
+TRAP_LOCATION = "build/dist/venv/.venv/.tox/.eggs/node_modules/site-packages/tests/proj"
+
+
 def e2e_cases():
     pick = ms.DEP_TRIGGERS["pixee:python/harden-pickle-load"][0]
     out = [("none", {}), ("requirements-empty", {"requirements.txt": b""}), ("requirements-one", {"requirements.txt": b"requests\n"})]
@@ -257,6 +260,17 @@ def e2e_eval(arg, cli=False):
         out.append((f"e2e:{label}|no-manual-notice", "no manifest was updated but the report's description carries no manual-installation notice"))
     if changed and "automatically added this dependency" not in desc:
         out.append((f"e2e:{label}|no-update-notice", "a manifest was updated but the description does not say so"))
+    # the same project checked out below directories whose names are excluded / special elsewhere (build roots, virtualenvs,
+    # test trees): which manifest is updated, and how, depends on the project, not on where it lives
+    job2 = drive.Job(files=files, argv=["{dir}", "--codemod-include", "pixee:python/harden-pickle-load"], proj_rel=TRAP_LOCATION)
+    obs2 = (drive.run_cli if cli else drive.run_inproc)(job2)
+    if obs2.error:
+        raise core.HarnessError(obs2.error)
+    cs1 = sorted(c["path"] for r in (obs.report or {}).get("results", []) for c in r["changeset"])
+    cs2 = sorted(c["path"] for r in (obs2.report or {}).get("results", []) for c in r["changeset"])
+    if obs2.exit != obs.exit or obs2.final != obs.final or cs1 != cs2:
+        diff = sorted(k for k in set(obs.final) | set(obs2.final) if obs.final.get(k) != obs2.final.get(k))
+        out.append((f"e2e:{label}|outcome-depends-on-where-the-project-lives", f"under {TRAP_LOCATION}: exit {obs2.exit} vs {obs.exit}, files that differ {diff}, changesets {cs2} vs {cs1}"))
     return out
 
 
